@@ -531,6 +531,7 @@ EXPLANATION = (
     "primitives in the C library and h5py.File modes in the package; access()+H5F_ACC_EXCL before create. "
     "R4: every H5Fcreate is staged under tmp. R6: no store to the identity fields sub_directory/basename can precede a publish call in its function. R5: regular-language emptiness of grammar & tmp-names; clean close "
     "finalizes. Decides the protocol shape on all paths, NOT that HDF5 flushed every byte (see C10) nor page-cache loss.")
+TECHNIQUE = ('clang JSON AST; string provenance (with helper inlining); HDF5 handle typestate over the CFG; who-may-call table of file-system primitives; regular-language emptiness')
 ASSUMPTIONS = ["POSIX rename within a directory is atomic", "a file is complete once H5Fclose succeeded",
                "H5F_ACC_EXCL fails on an existing file", "clang 14 AST and CPython ast are faithful"]
 FILES = [C_LIB, "c/include/digital_rf.h", "python/digital_rf/list_drf.py", "python/digital_rf/digital_rf_hdf5.py",
